@@ -23,6 +23,13 @@ SPEC = {
              "judged one (startup once(1-4) + optionally 1-4 more over 2-30 ms, per-instance profiles of 1-30 shots): ids are numbered from 0 within each pool and every pool "
              "starts all its tokens; the recording guns note whether their own context (GunDeps.Ctx) was done when a shot began: in a run that was neither cancelled nor "
              "failed it never is (cutting the start short stops new instances only); the real engine with recording doubles, 24 cases concurrently per process (sleep-bound). "
+             "Added after seeded defect C12/m16: discard_overflow is a dimension of every pool (true - the CLI default - in two cases of three), and in about a sixth of the cases "
+             "(all modes but the one with the 60 ms margin; mostly the two in which nothing may cut the start short) the FIRST instance of the judged pool, which the pool creates "
+             "synchronously, is slow to create - its gun constructor or Gun.Bind of instance 0 takes 2.3-3.3 s (a quarter: 0.2-1.5 s), so the start loop is that far behind the startup "
+             "profile and the tokens that became due meanwhile are 2 s and more overdue (measured: end of the slow step vs. token times); in half of those the profile goes on behind a "
+             "pause with 1-3 more instances that are due at most 1.9 s before / up to 0.3 s after the first instance is there (only the beginning of the ramp is 2 s overdue). "
+             "discard_overflow is about requests that are 2 s behind the request schedule (docs/eng/best_practices/discard-overflow.md); the startup profile says how many instances "
+             "there will be (docs/eng/startup.md): all its tokens become instances however late, ids stay 0..S-1. "
              "Non-trivial = >= 2 instances over >= 2 distinct startup instants; distinct = hash of the case."),
     "floors": {"TestStartup/engine_starts_the_profile": 0.25, "TestStartup/engine_starts_the_profile_after_warmup": 0.12,
                "TestStartup/warmup_then_startup_spread_in_time": 0.05, "TestStartup/warmup_longer_than_startup_spread": 0.03,
@@ -37,18 +44,28 @@ SPEC = {
                "TestStartup/shared_rps_unknown_length_startup_spread_in_time": 0.045,
                "TestStartup/shared_rps_unknown_length_all_spread_tokens_must_start": 0.02,
                "TestStartup/shared_rps_unlimited_alone": 0.01, "TestStartup/shared_rps_composite_unlimited_tail": 0.04,
-               "TestStartup/shared_rps_composite_unlimited_head_const_tail": 0.015},
+               "TestStartup/shared_rps_composite_unlimited_head_const_tail": 0.015,
+               # classes added after seeded defect C12/m16 (discard_overflow applied to startup tokens that are served 2 s and more late)
+               "TestStartup/discard_overflow": 0.4, "TestStartup/slow_first_instance": 0.08,
+               "TestStartup/slow_first_instance/factory": 0.03, "TestStartup/slow_first_instance/bind": 0.03,
+               "TestStartup/slow_first_instance_lt_2s": 0.015, "TestStartup/slow_first_instance_ge_2s": 0.05,
+               "TestStartup/startup_tokens_ge_2s_overdue_discard_overflow": 0.035,
+               "TestStartup/startup_tokens_ge_2s_overdue_discard_overflow_all_must_start": 0.02,
+               "TestStartup/startup_tokens_partly_ge_2s_overdue_discard_overflow_all_must_start": 0.004,
+               "TestStartup/startup_tokens_ge_2s_overdue_no_discard_overflow_all_must_start": 0.003},
     "manifest": {
         "technique": "property-based testing (rapid generators, batch-parallel) of the real engine; validity predicates over measured instants",
         "text": ("Startup profiles are generated, the engine is run with recording doubles, and measured instants are compared: the k-th gun "
                  "creation never precedes the k-th startup token (reference chain of the profile's parts), ids are 0..S-1, S equals the "
                  "token count (per pool when the engine has several; the profile's clock starts with the pool's instance start, after the gun warm-up) unless ammo/shared profile/creation failure/cancel cut the start short (a shared profile that cannot tell how "
-                 "many tokens it has left - unlimited, or a composite with an unlimited part ahead - has not finished), and no instance stops before the "
+                 "many tokens it has left - unlimited, or a composite with an unlimited part ahead - has not finished; a token that is served late, also 2 s and more late "
+                 "with discard_overflow on because the first instance was slow to create, is no such reason), and no instance stops before the "
                  "earliest instant at which ammo ran out, the shared profile was exhausted or the run was cancelled."),
         "note": ("Only measured instants are compared (a timer cannot fire early, so load can only delay creations, which the oracle "
                  "allows). Startup token times come from the C02 reference chain. Instance stop = its gun's Close instant. The one comparison with "
                  "a built-in margin (shared profile 60 ms longer than the startup: a shortfall is only accepted when the profile ended first) is "
                  "counted inconclusive_machine_load instead of failing when the per-case load probe saw sleepers woken more than 25 ms late."),
     },
-    "assumptions": ["the endless-mode sub-check waits up to 15 s for all startup tokens to become instances before it cancels"],
+    "assumptions": ["the endless-mode sub-check waits up to 15 s for all startup tokens to become instances before it cancels",
+                    "the slow creation of the first instance is a plain sleep (2.3-3.3 s) in the gun constructor / in Bind of instance 0; a process stall of 2 s in the middle of a ramp is not generated"],
 }
